@@ -133,6 +133,8 @@ def norm_paths(text):
     import re
 
     text = re.sub(r"\b(?:generators::)?alloc::", "std::", text)
+    # rand re-exports the rand_core traits; which path rustc prints depends on the crate's imports
+    text = re.sub(r"\brand::(SeedableRng|RngCore|CryptoRng)\b", r"rand_core::\1", text)
     return re.sub(r"\bcore::", "std::", text)
 
 
@@ -226,6 +228,13 @@ def fn_renames(d):
         if len(cands) == 1:
             # keep the actual generic-argument spelling of the container, replace the last segment only
             out[cands[0]] = cands[0].rsplit("::", 1)[0] + "::" + old_path.rsplit("::", 1)[1]
+            continue
+        # moved: a free function of the same name and signature in another module (the reviewed path is gone)
+        last = c.rsplit("::", 1)[1]
+        if "<" not in old_path:  # free functions only (methods move with their type, see adt_renames)
+            moved = [p for cp, p in have.items() if cp.rsplit("::", 1)[-1] == last and cp not in spec_canon and "<" not in p and not fns[p].get("expn") and fn_sig(fns[p]) == sig]
+            if len(moved) == 1:
+                out[moved[0]] = old_path
     return out
 
 
@@ -253,6 +262,18 @@ def adt_renames(d):
                 cands.append(p)
         if len(cands) == 1:
             out[cands[0]] = old
+            continue
+        # moved into another module under the same name
+        name = old.rsplit("::", 1)[1]
+        moved = []
+        for p, a in have.items():
+            if p in spec or p.rsplit("::", 1)[-1] != name:
+                continue
+            fl = a["variants"][0]["fields"]
+            if len(fl) == len(want) and all(_norm_ty(f_["ty"]).replace(p, old) == t for f_, (_, t) in zip(fl, want)):
+                moved.append(p)
+        if len(moved) == 1:
+            out[moved[0]] = old
     return out
 
 
